@@ -79,7 +79,7 @@ def file_content(gen):
         return by, layout['fields'], {'model': model, 'layout': layout}
     if world == 'lis':
         from worlds import lis_logical
-        model = lis_logical.gen_model(rng, max_frames=gen.get('frames', 40), names_pool=gen.get('names'), small_pr=gen.get('small_pr', False), huge=gen.get('huge', False), tif_pad=gen.get('tif_pad', False))
+        model = lis_logical.gen_model(rng, max_frames=gen.get('frames', 40), names_pool=gen.get('names'), small_pr=gen.get('small_pr', False), huge=gen.get('huge', False), tif_pad=gen.get('tif_pad', False), tape_marks=gen.get('tape_marks', False))
         if gen.get('variant'):
             model = vary(world, model, gen['variant'])
         by, layout = lis_logical.build(model)
@@ -97,11 +97,13 @@ def file_content(gen):
     if world == 'las':
         from worlds import las
         m = las.gen_model(rng, max_rows=gen.get('frames', 20))
-        return las.text(m).encode('ascii'), [], {'model': m}
+        by_ = las.text(m).encode('ascii')
+        return by_, las.token_fields(by_), {'model': m}
     if world == 'dat':
         from worlds import dat
         m = dat.gen_model(rng, max_rows=gen.get('frames', 10), big=gen.get('big', False))
-        return dat.text_of(dat.lines(m), m['trailing_newline']).encode('ascii'), [], {'model': m}
+        by_ = dat.text_of(dat.lines(m), m['trailing_newline']).encode('ascii')
+        return by_, dat.token_fields(by_), {'model': m}
     if world == 'foreign':
         from worlds import foreign
         return foreign.content(gen.get('kind', 'random'), gen['seed'], gen.get('size', 300)), [], {}
@@ -212,6 +214,24 @@ def _run_in_child(spec):
             out['steps'] = max(sim.get('task_steps', {0: 0}).values() or [0])
         else:
             rel = spec['alone']
+            if run.get('stale_first'):
+                # history of the PATH inside this process: it first held other bytes of the same size (a damaged or unfinished copy,
+                # converted and rightly ignored or failed), then the file was repaired in place and is converted again
+                p_ = os.path.join(in_dir, rel)
+                with open(p_, 'rb') as fh_:
+                    real = fh_.read()
+                stale = damage.apply_all(real, run['stale_first'])
+                if len(stale) == len(real) and stale != real:
+                    with open(p_, 'wb') as fh_:
+                        fh_.write(stale)
+                    try:
+                        with StepBudget(spec['budget']):
+                            WriteLAS.convert_dir_or_file_to_las(p_, os.path.join(out_dir + '_stale', rel), scenario['recurse'], *args, fn)
+                    except BaseException:
+                        pass
+                    with open(p_, 'wb') as fh_:
+                        fh_.write(real)
+                    out['stale_first_done'] = True
             with StepBudget(spec['budget']) as sb:
                 res = WriteLAS.convert_dir_or_file_to_las(os.path.join(in_dir, rel), os.path.join(out_dir, rel), scenario['recurse'], *args, fn)
             out['steps'] = sb.count
